@@ -556,8 +556,12 @@ int main(int argc, char **argv) {
             if (c > 0) { int st = 0; while (waitpid(c, &st, 0) < 0 && errno == EINTR) {} _exit(WIFEXITED(st) ? WEXITSTATUS(st) : 128 + WTERMSIG(st)); }
             free(nm); }
         else if (!strcmp(tok[0], "stdiopending")) { /* the caller's stdout is fully buffered and holds unflushed text; its stderr is wide-oriented (the program uses fwprintf there) */
-            static char sobuf[1 << 16]; setvbuf(stdout, sobuf, _IOFBF, sizeof sobuf); fputs("starting helper... ", stdout);
-            if (nt > 1 && atoi(tok[1])) fwide(stderr, 1); }
+            static char sobuf[1 << 16]; if (nt > 1 && atoi(tok[1]) == 2) ; else { setvbuf(stdout, sobuf, _IOFBF, sizeof sobuf); fputs("starting helper... ", stdout); }
+            if (nt > 1 && atoi(tok[1]) == 1) fwide(stderr, 1);
+            /* 2: both streams carry a sticky error indicator from an earlier failure of the program's own output (a write that hit ENOSPC);
+               the descriptors themselves are perfectly healthy now */
+            if (nt > 1 && atoi(tok[1]) == 2) { for (int k = 1; k <= 2; k++) { FILE *st = k == 1 ? stdout : stderr; int keep = dup(k), full = open("/dev/full", O_WRONLY); fflush(st); dup2(full, k); close(full);
+                    fputs("x", st); fflush(st); dup2(keep, k); close(keep); } } }
         else if (!strcmp(tok[0], "abandon")) do_abandon();
         else if (!strcmp(tok[0], "fillfifo")) { /* a FIFO in the work directory whose reader (this harness) never reads and which is full: a write to it blocks */
             char *nm = mkstr(tok[1]); char fp[3200]; snprintf(fp, sizeof fp, "%s/%s", W, nm); free(nm); unlink(fp);
@@ -565,6 +569,8 @@ int main(int argc, char **argv) {
             int rfd = open(fp, O_RDONLY | O_NONBLOCK | O_CLOEXEC), wfd = open(fp, O_WRONLY | O_NONBLOCK | O_CLOEXEC); if (rfd < 0 || wfd < 0) { perror("fifo"); return 3; }
             static char fill[4096]; memset(fill, 'f', sizeof fill); while (write(wfd, fill, sizeof fill) > 0) {} while (write(wfd, fill, 1) > 0) {} }
         else if (!strcmp(tok[0], "hugecall")) do_hugecall(nt > 1 ? tok[1] : "mid");
+        else if (!strcmp(tok[0], "nonblock")) { /* the caller keeps this descriptor in non-blocking mode (an event-driven program): the mode belongs to the shared open file description */
+            int fd = atoi(tok[1]); int fl = fcntl(fd, F_GETFL); if (fl < 0 || fcntl(fd, F_SETFL, fl | O_NONBLOCK)) { perror("nonblock"); return 3; } }
         else if (!strcmp(tok[0], "atforkexec")) { if (pthread_atfork(NULL, NULL, atfork_child_exec)) { perror("pthread_atfork"); return 3; } }
         else if (!strcmp(tok[0], "prname")) { char *p = mkstr(tok[1]); prctl(PR_SET_NAME, p, 0, 0, 0); free(p); }
         else if (!strcmp(tok[0], "echo")) out("{\"echo\":\"%s\"}\n", nt > 1 ? tok[1] : "");
